@@ -83,7 +83,8 @@ def is_frontier(
   Returns:
     Boolean numpy Array of shape [B].
   """
-  idx = np.linspace(0, ys.shape[0], num_shards).astype(np.int32)
+  # `num_shards` shards have `num_shards + 1` boundaries.
+  idx = np.linspace(0, ys.shape[0], num_shards + 1).astype(np.int32)
   idx = list(reversed(idx))
   # Initialize candidates with all points
   frontier = np.ones(ys.shape[0], dtype=np.bool_)
@@ -137,7 +138,8 @@ def get_frontier(
   Returns:
     Array of shape [B, M].
   """
-  idx = np.linspace(0, ys.shape[0], num_shards).astype(np.int32)
+  # `num_shards` shards have `num_shards + 1` boundaries.
+  idx = np.linspace(0, ys.shape[0], num_shards + 1).astype(np.int32)
   idx = list(reversed(idx))
   # Initialize candidates with all points
   candidates = jnp.asarray(ys)
